@@ -40,11 +40,21 @@ PAIRS = [("col_a", "col_b"), ("pal12_a", "pal12_b"), ("col_a", "multi_a"), ("fig
          ("raising", "col_a"), ("bcol_a", "bcol_b"), ("paged_s8", "paged_s14"), ("blk_a", "col_b"),
          ("badcolor", "col_a"), ("multi_raising", "multi_b"), ("graded_s9", "graded_s92"),
          ("multi3_p", "multi3_l"), ("title_vec", "col_b"),
-         ("const_a", "const_b")]
+         ("const_a", "const_b"), ("shr_a", "shr_b"), ("shr_c", "shr_b")]
 # double preemptions on a grid: thread 0 is left at its k1-th boundary, thread 1 at its k2-th, then thread 0
 # runs to its end before thread 1 resumes (and the mirror image)
 GRID_PAIRS = [("blk_a", "col_b"), ("badcolor", "col_b"), ("col_a", "col_b"), ("graded_s9", "graded_s92"),
-              ("pal12_a", "blk_a")]
+              ("pal12_a", "blk_a"), ("shr_a", "shr_c")]
+# documents that are built FROM THE SAME COMPONENT OBJECTS (one title, one header, one footnote, one table-rendered
+# source kept by the caller and passed to both documents): an encode may read them, the other thread reads them too
+_SH = {"title": {"text": "TT0"}, "colheader": [{}], "footnote": {"text": "FN0"},
+       "source": {"text": "SR0", "as_table": True}, "subline": {"text": "SL0"}}
+SHARED = {
+    "shr_a": dict(_SH, kind="table", df=c14.tagged(3, 3), body={}),
+    "shr_b": dict(_SH, kind="table", df=c14.tagged(4, 3), body={}, page={"border_last": "", "border_first": ""}),
+    "shr_c": dict(_SH, kind="table", df=c14.tagged(7, 3), body={}, page={"nrow": 12, "page_footnote": "all",
+                                                                       "page_source": "all"}),
+}
 TRIPLES = [("col_a", "col_b", "multi_a"), ("figure", "pageby", "col_b"), ("col_a", "raising", "multi_b")]
 
 
@@ -54,7 +64,8 @@ def exhaustive(tier):
 
 def plan(tier, seed):
     descs = []
-    pairs = (PAIRS[:2] + [("multi3_p", "multi3_l"), ("title_vec", "col_b"), ("const_a", "const_b")]) \
+    pairs = (PAIRS[:2] + [("multi3_p", "multi3_l"), ("title_vec", "col_b"), ("const_a", "const_b"),
+                          ("shr_a", "shr_b")]) \
         if tier == "quick" else PAIRS
     k = 12 if tier == "quick" else 13
     for pi, pair in enumerate(pairs):
@@ -92,6 +103,7 @@ class Env:
         self.solo = {}
         self.nb = {}
         self.tmp = []
+        self.pool = {}
         self._install_trace()
 
     def _install_trace(self):
@@ -136,7 +148,16 @@ class Env:
                 continue
             td = tempfile.mkdtemp(prefix="rtfmon-c15-")
             self.tmp.append(td)
-            self.docs[n] = S.build(c14.POOL[n], td)
+            if n in SHARED:
+                import rtflite
+                self.docs[n] = rtflite.RTFDocument(**S.build_components(SHARED[n], td, self.pool))
+                # (counted when a second document really received an object the first one holds)
+                self.shared_objects = sum(
+                    1 for a in self.docs for b in self.docs if a < b and a in SHARED and b in SHARED
+                    for f in ("rtf_title", "rtf_footnote", "rtf_source", "rtf_subline")
+                    if getattr(self.docs[a], f) is getattr(self.docs[b], f) and getattr(self.docs[a], f) is not None)
+            else:
+                self.docs[n] = S.build(c14.POOL[n], td)
             # solo result, measured under the same monitoring (twice: warm caches first)
             for _ in range(2):
                 res, fin = self.sched.run({n: self.job(n)}, {}, n)
@@ -330,6 +351,8 @@ def run_shard(desc, ctx):
                     ctx.notes.append(f"pair {'+'.join(names)}: every {stride}th of its call boundaries")
             for me, k in jobs[desc["lo"]::desc["step"]]:
                 run_schedule(ctx, env, names, {me: {k: 1 - me}}, me, "single preemption")
+            if desc["lo"] == 0 and names[0] in SHARED:
+                ctx.count("component_objects_shared_between_the_threads_documents", getattr(env, "shared_objects", 0))
             if desc["lo"] == 0:
                 ctx.count("boundaries_thread0", env.nb[names[0]])
                 ctx.count("boundaries_thread1", env.nb[names[1]])
